@@ -11,7 +11,8 @@ EXTENDS Naturals, Sequences, FiniteSets, TLC, Json
 CONSTANTS MaxSeries
 VARIABLES cfg, series, chosen
 Names == <<"a", "a.b", "c-d_e.count", "Z9.upper", "m_0.histogram">>
-TagSets == << <<>>, <<"env:x">>, <<"k:pr/od-1.x_y", "solo">>, <<"a:b:c", "zone:eu-1", "ver:v1.2">>, <<"solo", "other">> >>
+TagSets == << <<>>, <<"env:x">>, <<"k:pr/od-1.x_y", "solo">>, <<"a:b:c", "zone:eu-1", "ver:v1.2">>, <<"solo", "other">>,
+             <<"zone:us-2", "env:x">>, <<"hostname:web-1", "hosted">> >>
 Hosts == <<"h1", "", "10.0.0.7">>
 \* value profiles per kind: counters (events as value@rate), gauges, set members, timer values
 CounterVals == << <<"5">>, <<"1", "2", "3">>, <<"0">> >>
@@ -22,19 +23,21 @@ Masks == << <<>>, <<"lower", "count-per-second", "stddev">>, <<"lower", "upper",
             <<"count-pct", "mean-pct", "sum-pct", "sum-squares-pct", "upper-pct", "lower-pct">>, <<"upper", "sum-squares", "mean-pct">> >>
 Pcts == << <<>>, <<"90">>, <<"90", "-90">>, <<"99.5">> >>
 Batches == {0, 1, 2, 3, 5, 7, 21, 24}
-Cfgs == [batch : Batches, mask : 1..Len(Masks), pcts : 1..Len(Pcts), compress : BOOLEAN, histLimit : {1, 10}]
+\* reskeys: otlp.resource_keys = zone (series are grouped into one resource per zone value)
+Cfgs == [batch : Batches, mask : 1..Len(Masks), pcts : 1..Len(Pcts), compress : BOOLEAN, histLimit : {1, 10}, reskeys : BOOLEAN]
 S(k, n, t, h, v) == [k |-> k, n |-> n, t |-> t, h |-> h, v |-> v]
 Pool == {S("c", n, t, h, v) : n \in 1..Len(Names), t \in 1..Len(TagSets), h \in 1..Len(Hosts), v \in 1..Len(CounterVals)} \cup
         {S("g", n, t, h, v) : n \in 1..Len(Names), t \in 1..Len(TagSets), h \in 1..Len(Hosts), v \in 1..Len(GaugeVals)} \cup
         {S("s", n, t, h, v) : n \in 1..Len(Names), t \in 1..Len(TagSets), h \in 1..Len(Hosts), v \in 1..Len(SetVals)} \cup
         {S(k, n, t, h, v) : k \in {"ms", "hist"}, n \in 1..Len(Names), t \in 1..Len(TagSets), h \in 1..Len(Hosts), v \in 1..Len(TimerVals)}
-Init == cfg = [batch |-> 0, mask |-> 1, pcts |-> 1, compress |-> TRUE, histLimit |-> 10] /\ series = <<>> /\ chosen = FALSE
+Init == cfg = [batch |-> 0, mask |-> 1, pcts |-> 1, compress |-> TRUE, histLimit |-> 10, reskeys |-> FALSE] /\ series = <<>> /\ chosen = FALSE
 Next == IF ~chosen THEN \E c \in {RandomElement(Cfgs)} : cfg' = c /\ chosen' = TRUE /\ UNCHANGED series
         ELSE Len(series) < MaxSeries /\ \E s \in {RandomElement(Pool)} : series' = Append(series, s) /\ UNCHANGED <<cfg, chosen>>
 Spec == Init /\ [][Next]_<<cfg, series, chosen>>
 Pools == [names |-> Names, tagsets |-> TagSets, hosts |-> Hosts, counters |-> CounterVals, gauges |-> GaugeVals, sets |-> SetVals, timers |-> TimerVals,
           masks |-> Masks, pcts |-> Pcts]
-C(b, m, p, z, l) == [batch |-> b, mask |-> m, pcts |-> p, compress |-> z, histLimit |-> l]
+C(b, m, p, z, l) == [batch |-> b, mask |-> m, pcts |-> p, compress |-> z, histLimit |-> l, reskeys |-> FALSE]
+CR(b, m, p, z, l) == [batch |-> b, mask |-> m, pcts |-> p, compress |-> z, histLimit |-> l, reskeys |-> TRUE]
 Case(label, c, ss) == [label |-> label, cfg |-> c, series |-> ss, pools |-> Pools]
 Core == {
   Case("", C(0, 1, 3, TRUE, 10), <<S("c", 1, 2, 1, 1), S("g", 2, 3, 1, 1), S("s", 3, 1, 2, 2), S("ms", 4, 4, 1, 2), S("hist", 5, 2, 1, 2)>>),
@@ -45,6 +48,8 @@ Core == {
   Case("", C(0, 1, 1, TRUE, 1), <<S("hist", 1, 2, 1, 2), S("g", 2, 1, 1, 1)>>),                                                    \* histogram limit 1
   Case("", C(5, 2, 3, FALSE, 10), <<S("s", 1, 5, 3, 2), S("s", 2, 5, 1, 3), S("ms", 3, 5, 3, 3), S("c", 4, 5, 3, 3)>>),
   Case("", C(0, 1, 1, TRUE, 10), <<>>),                                                                                            \* an empty flush
+  Case("", CR(3, 1, 1, TRUE, 10), <<S("c", 1, 4, 1, 1), S("c", 2, 4, 1, 1), S("g", 1, 6, 1, 1), S("g", 2, 6, 1, 2), S("c", 3, 1, 1, 1), S("g", 3, 1, 1, 1), S("s", 1, 6, 1, 1)>>), \* three resources, each below the batch size
+  Case("", C(0, 1, 1, TRUE, 10), <<S("g", 1, 7, 1, 1), S("c", 2, 7, 3, 1), S("ms", 3, 7, 1, 1)>>),                                 \* tags that merely start with "host"
   Case("same-series-two-hosts", C(0, 1, 1, TRUE, 10), <<S("g", 1, 2, 1, 1), S("g", 1, 2, 3, 2), S("c", 2, 2, 1, 1), S("c", 2, 2, 3, 2)>>),
   Case("fill", C(0, 1, 1, TRUE, 10), <<>>),                                 \* the driver adds series that fill relay datagrams exactly and nearly
   Case("numeric-tag-value", C(0, 1, 1, TRUE, 10), <<S("g", 1, 1, 1, 1)>>),  \* the driver adds the tags ver:1.0 and n:10_20
